@@ -483,6 +483,45 @@ theorem repeat_when_entry_gone (c : Cfg) (s : State) (f : Flush)
   rw [flush_sent_iff, hq]
   exact ⟨Or.inl hf, hf, fun h => hf h.2, hacc⟩
 
+/-- **Sentence 2 of C04 (timing).**  A live group whose flushes are quiet ticks
+    every group_interval (`AM.Group.flush_gap_le`: the tick after a flush handled
+    at `w` is `w + gi`, and a quiet flush is handled at its tick).  Among the
+    ticks `t, t+gi, t+2·gi, …` following a recorded delivery at `ts`, the first
+    one later than `ts + repeat` — the one at which `repeat_on_time` re-notifies
+    and before which `no_repeat_before` keeps silent — lies in
+    `(ts + repeat, ts + repeat + gi]`. -/
+theorem repeat_window (ts rep gi t : Int) (hgi : 0 < gi) (ht : t ≤ ts + rep + gi) :
+    ∃ k : Nat, ts + rep < t + k * gi ∧ t + k * gi ≤ ts + rep + gi ∧
+      ∀ j : Nat, j < k → t + j * gi ≤ ts + rep := by
+  by_cases hd : ts + rep < t
+  · exact ⟨0, by simpa using hd, by simpa using ht, fun j hj => by omega⟩
+  · have hd' : 0 ≤ ts + rep - t := by omega
+    let d := ts + rep - t
+    have h1 := Int.emod_add_mul_ediv d gi
+    have h2 := Int.emod_nonneg d (by omega : gi ≠ 0)
+    have h3 := Int.emod_lt_of_pos d hgi
+    have hq : 0 ≤ d / gi := Int.ediv_nonneg hd' (by omega)
+    refine ⟨(d / gi).toNat + 1, ?_, ?_, ?_⟩
+    · have : ((d / gi).toNat : Int) = d / gi := Int.toNat_of_nonneg hq
+      push_cast
+      rw [this]
+      have : (d / gi + 1) * gi = gi * (d / gi) + gi := by
+        rw [Int.add_mul, Int.mul_comm]; simp
+      rw [this]; omega
+    · have : ((d / gi).toNat : Int) = d / gi := Int.toNat_of_nonneg hq
+      push_cast
+      rw [this]
+      have : (d / gi + 1) * gi = gi * (d / gi) + gi := by
+        rw [Int.add_mul, Int.mul_comm]; simp
+      rw [this]; omega
+    · intro j hj
+      have hjq : (j : Int) ≤ d / gi := by
+        have : ((d / gi).toNat : Int) = d / gi := Int.toNat_of_nonneg hq
+        omega
+      have : (j : Int) * gi ≤ (d / gi) * gi := Int.mul_le_mul_of_nonneg_right hjq (by omega)
+      have h4 : (d / gi) * gi = gi * (d / gi) := Int.mul_comm _ _
+      omega
+
 /-! ### resolved-only groups never notify -/
 
 /-- **Sentence 3 of C04**, for all histories: a notification listing no firing
